@@ -184,4 +184,24 @@ theorem xzdecRun_spec (lz : Bool) (files : List (List UInt8 × Ret × Bool)) :
     · simp [hok]
 
 
+theorem xzFile_msgs (cfg : Cfg) (o : Opts) (fi : FileIn) (out : Dest) :
+    (xzFile cfg o fi out).msgs =
+      if fi.fmtKnown = false then
+        (if o.mode = .decompress ∧ o.toStdout = true ∧ o.force = true then [] else [Msg.error])
+      else
+        List.replicate fi.initWarn Msg.warning ++
+          (if fi.initRet = .ok ∨ fi.initRet = .streamEnd then
+            (coderNormal cfg fi.allowTrailing fi.trailing fi.steps []).msgs else [Msg.error]) := by
+  unfold xzFile
+  cases hk : fi.fmtKnown with
+  | false =>
+    cases hm : o.mode <;> cases hs : o.toStdout <;> cases hfo : o.force <;> simp [coderPassthru]
+  | true =>
+    by_cases h1 : fi.initRet = .ok
+    · cases hm : o.mode <;> cases hs : o.toStdout <;> simp [h1]
+    · by_cases h2 : fi.initRet = .streamEnd
+      · cases hm : o.mode <;> cases hs : o.toStdout <;> simp [h2]
+      · simp [h1, h2]
+
+
 end XzVerif.Sparse
